@@ -118,6 +118,12 @@ impl<V: PartialEq, A: Ord> PartialEq for MVReg<V, A> {
 //@end
 }
 
+// #[derive(Clone)] on MVReg (assumed; only needed so that MVReg can be a Map value)
+impl<V: Clone, A: Ord + Clone> Clone for MVReg<V, A> {
+    #[verifier::external_body]
+    fn clone(&self) -> (r: Self) ensures r.vs().len() == self.vs().len() { MVReg { vals: self.vals.clone() } }
+}
+
 impl<V, A: Ord> Default for MVReg<V, A> {
 //@extract fn src/mvreg.rs "Default for MVReg" default
     fn default() -> /*@ (r: @*/ Self /*@ ) @*/
